@@ -142,6 +142,32 @@ def run_history(R, level, steps, ctx_engine, boots0, report_ctx=None, two_step=F
                 reboots += 1  # counts as one more permitted re-synchronisation
                 R.mon["agent_clock_drifts"] += 1
                 continue
+            if st[0] == "failop":
+                # an operation that FAILS on the way: datagram number k of it gets no answer
+                # (the sender's Timeout) or garbage back.  Its own outcome is not judged;
+                # whatever it left behind, the operations after it are ordinary ones.
+                how, kth = st[1].rsplit("-", 1)
+                inner, seen = w.seam.responder, {"n": 0}
+
+                def failing(data, how=how, kth=int(kth), inner=inner, seen=seen):
+                    seen["n"] += 1
+                    good = inner(data)
+                    if seen["n"] == kth:
+                        return None if how == "drop" else b"\x30\x03\x02\x01\x03"
+                    return good
+
+                w.seam.responder = failing
+                try:
+                    rig.outcome(lambda: do_op(w, "get", 900 + i))
+                finally:
+                    w.seam.responder = inner
+                # requests of the FAILED operation that the agent found outside its window
+                # (its report may be the very datagram that got lost, so the next operation
+                # has to re-synchronise again): permitted, on top of one per reboot / drift
+                reboots += sum(1 for r in w.agent.requests if r.get("verdict") == "not_in_window")
+                w.agent.requests.clear()
+                R.mon["operations_that_failed_on_the_way"] += 1
+                continue
             nop += 1
             nreq0 = len(w.seam.requests)
             res = rig.outcome(lambda: do_op(w, st[1], nop))
@@ -257,6 +283,8 @@ def gen_history(rng):
             steps.append(("advance", rng.choice(ADV)))
         elif r < 0.88:
             steps.append(("drift", rng.choice((10, 140, 160, 400, 86400))))
+        elif r < 0.9:
+            steps.append(("failop", rng.choice(("drop-1", "drop-2", "garbage-1", "garbage-2", "drop-3"))))
         elif r < 0.92:
             steps.append(("wallstep", rng.choice((-3600, 3600, -86400 * 400, 86400, -151, 151, 0.5))))
         else:
@@ -299,6 +327,12 @@ def run(R):
             run_history(R, level, [("op", "get"), ("reboot", 0), ("op", "set"), ("op", "get")], b"", 1)
             run_history(R, level, [("op", "get"), ("advance", 149), ("op", "get"), ("advance", 149), ("op", "get"), ("advance", 3 * 86400), ("op", "walk")], b"", 1)
             run_history(R, level, [("op", "set"), ("advance", 3600), ("reboot", 0), ("advance", 100), ("reboot", 0), ("op", "bulkget")], b"", 1)
+            # the re-synchronised retry after a reboot is lost (or answered with garbage),
+            # the caller shrugs; ordinary calls, ANOTHER reboot, ordinary calls
+            for fail in ("drop-2", "garbage-2", "drop-1", "garbage-1"):
+                run_history(R, level, [("op", "get"), ("reboot", 0), ("failop", fail), ("op", "get"), ("advance", 20), ("reboot", 0), ("op", "get"), ("op", "set"), ("advance", 200), ("op", "get")], b"", 1)
+                run_history(R, level, [("failop", fail), ("op", "get"), ("reboot", 0), ("op", "get")], b"", 1)
+                R.mon["histories_with_a_failed_resynchronisation"] += 1
         # a long-lived client polling faster than once a second: fractions of a second
         # must not get lost (500 requests 0.4 s apart = 200 s, no reboot, so the agent
         # must never see a request outside its window)
